@@ -1,12 +1,11 @@
 /-
   C09 — Custom messages can never replace or alter an existing account.
 
-  Proved so far on the model (C4E.Vesting): the two primitives through which the vesting handlers
-  write account records — `newCva` (newContinuousVestingAccount) and the account creation inside
-  `State.send` — never change the record of any OTHER address, and every handler that calls
-  `newCva` first rejects a recipient whose record exists.  The full statement over `deliver`
-  (`existing_untouched_full`) stays visible; the monitor `existing-account-changed` evaluates it on
-  the real auth keeper after every message.
+  Proved on the model (C4E.Vesting): `existing_untouched` — after ANY delivered vesting message
+  every pre-existing account record is unchanged, except that the signer of a split / move may
+  have its own OriginalVesting rewritten; `existing_untouched_history` lifts it to every message
+  sequence.  The signature module's account creation is covered by the Go-side monitor
+  `existing-account-changed` (it has no model state beyond the existence check).
 -/
 import C4E.Vesting
 import C4E.Lemmas.AListLemmas
@@ -79,13 +78,339 @@ theorem splitCoins_rejects_existing (s : State) (src to : String) (amount : Coin
     · simp
     · simp [h]
 
-/-- full statement (target): every pre-existing record survives any delivered message, except the
-    sender's original vesting in a split or move -/
-def existing_untouched_full : Prop :=
-  ∀ (s : State) (m : Msg) (a : String) (r : Acct), s.accts.get? a = some r →
+/-! ### the full statement over `deliver` -/
+
+/-- every record present in `s` is present and equal in `s'` -/
+def Keeps (s s' : State) : Prop := ∀ a r, s.accts.get? a = some r → s'.accts.get? a = some r
+
+theorem Keeps.trans {a b c : State} (h1 : Keeps a b) (h2 : Keeps b c) : Keeps a c :=
+  fun x r h => h2 x r (h1 x r h)
+
+theorem keeps_of_eq {s s' : State} (h : s'.accts = s.accts) : Keeps s s' := by
+  intro a r ha; rw [h]; exact ha
+
+theorem keeps_send {s s' : State} {src dst : String} {c : Coins} (h : s.send src dst c = .ok s') : Keeps s s' :=
+  fun a r ha => send_keeps_existing s s' src dst c a r h ha
+
+theorem keeps_sendFromModule {s s' : State} {dst : String} {c : Coins} (h : s.sendFromModule dst c = .ok s') : Keeps s s' := by
+  unfold State.sendFromModule at h
+  split at h
+  · cases h
+  · exact keeps_send h
+
+theorem keeps_newCva (s : State) (to : String) (ov : Coins) (a b : Int) (h : (s.accts.get? to).isSome = false) :
+    Keeps s (newCva s to ov a b) := by
+  intro x r hx
+  have hne : x ≠ to := by
+    intro e; subst e; rw [hx] at h; simp at h
+  rw [newCva_other s to x ov a b hne]; exact hx
+
+theorem keeps_createPool {s : State} {o : Addr} {name : String} {amount dur : Int} {vt : String} {res : Res}
+    (h : createPool s o name amount dur vt = .ok res) : Keeps s res.st := by
+  unfold createPool at h
+  split at h
+  · cases h
+  · split at h
+    · cases h
+    · split at h
+      · cases h
+      · split at h
+        · cases h
+        · simp only [] at h
+          split at h
+          · cases h
+          · split at h
+            · rename_i s1 hsend
+              cases h
+              exact (keeps_send hsend).trans (keeps_of_eq rfl)
+            · cases h
+            · cases h
+
+theorem keeps_withdrawAll {s : State} {o : Addr} {res : Res} (h : withdrawAll s o = .ok res) : Keeps s res.st := by
+  unfold withdrawAll at h
+  split at h
+  · cases h
+  · split at h
+    · cases h
+    · split at h
+      · cases h
+      · simp only [] at h
+        split at h
+        · rename_i s1 hsent
+          split at h
+          · cases h
+          · cases h
+            have h1 : Keeps s s1 := by
+              split at hsent
+              all_goals first | exact keeps_sendFromModule hsent | (cases hsent; exact fun _ _ h => h) | cases hsent
+            exact h1.trans (keeps_of_eq rfl)
+        · cases h
+        · cases h
+
+theorem keeps_newVestingAccount {s s' : State} {to : String} {amount free le ve : Int}
+    (h : newVestingAccount s to amount free le ve = .ok s') : Keeps s s' := by
+  unfold newVestingAccount at h
+  split at h
+  · cases h
+  · split at h
+    · cases h
+    · split at h
+      · cases h
+      · rename_i hex
+        simp only [] at h
+        split at h
+        · cases h
+        · split at h
+          · rename_i s2 hsend
+            cases h
+            exact (keeps_newCva s to _ _ _ (by simpa using hex)).trans (keeps_sendFromModule hsend)
+          · cases h
+          · cases h
+
+theorem keeps_sendToNew {s : State} {o to : Addr} {pool : String} {amount : Int} {restart : Bool} {res : Res}
+    (h : sendToNew s o to pool amount restart = .ok res) : Keeps s res.st := by
+  unfold sendToNew at h
+  split at h
+  · cases h
+  · split at h
+    · cases h
+    · cases h
+    · rename_i w hw
+      have h1 := keeps_withdrawAll hw
+      simp only [] at h
+      split at h
+      · cases h
+      · split at h
+        · cases h
+        · split at h
+          · cases h
+          · split at h
+            · cases h
+            · split at h
+              · cases h
+              · split at h
+                · cases h
+                · cases h
+                · rename_i s2 hr
+                  cases h
+                  have h2 : Keeps w.st s2 := by
+                    cases restart
+                    · simp only [Bool.false_eq_true, if_false] at hr; exact keeps_newVestingAccount hr
+                    · simp only [if_true] at hr; exact keeps_newVestingAccount hr
+                  exact (h1.trans h2).trans (keeps_of_eq rfl)
+
+theorem keeps_createVA {s : State} {src to : Addr} {amount : List (String × Option Int)} {a b : Int} {res : Res}
+    (h : createVA s src to amount a b = .ok res) : Keeps s res.st := by
+  unfold createVA at h
+  split at h
+  · cases h
+  · simp only [] at h
+    split at h
+    · cases h
+    · split at h
+      · cases h
+      · rename_i hex
+        split at h
+        · rename_i s2 hsend
+          cases h
+          exact (keeps_newCva s to.s _ _ _ (by simpa using hex)).trans (keeps_send hsend)
+        · cases h
+        · cases h
+
+/-- the per-coin loop of the unlock only ever rewrites `OriginalVesting` -/
+theorem unlockStep_ov (now : Int) (acc : Acct) (vc : Coins) (r : Outcome Acct) (kv : String × Int)
+    (hr : ∀ a, r = .ok a → ∃ ov', a = { acc with ov := ov' }) :
+    ∀ a, unlockStep now acc vc r kv = .ok a → ∃ ov', a = { acc with ov := ov' } := by
+  intro a h
+  unfold unlockStep at h
+  split at h
+  · rename_i a0
+    obtain ⟨ov0, rfl⟩ := hr a0 rfl
+    split at h
+    · simp only [] at h
+      split at h
+      · cases h
+      · split at h
+        · cases h
+        · split at h
+          · cases h
+          · split at h
+            · split at h
+              · cases h
+              · cases h; exact ⟨_, rfl⟩
+            · cases h; exact ⟨_, rfl⟩
+    · cases h; exact ⟨_, rfl⟩
+  · cases h
+  · cases h
+
+theorem unlockFold_ov (now : Int) (acc : Acct) (vc : Coins) : ∀ (amt : Coins) (r : Outcome Acct),
+    (∀ a, r = .ok a → ∃ ov', a = { acc with ov := ov' }) →
+    ∀ a, amt.foldl (unlockStep now acc vc) r = .ok a → ∃ ov', a = { acc with ov := ov' }
+  | [], r, hr, a, h => hr a h
+  | kv :: rest, r, hr, a, h => by
+    rw [List.foldl_cons] at h
+    exact unlockFold_ov now acc vc rest _ (unlockStep_ov now acc vc r kv hr) a h
+
+/-- the unlock rewrites only the owner's record, and of that only `OriginalVesting` -/
+theorem unlock_shape {s s1 : State} {owner : String} {amt : Coins} {a : Acct}
+    (h : unlockUnbonded s owner amt = .ok (s1, a)) :
+    ∃ acc ov', s.accts.get? owner = some acc ∧ a = { acc with ov := ov' } ∧ s1.accts = s.accts.set owner a := by
+  unfold unlockUnbonded at h
+  split at h
+  · cases h
+  · split at h
+    · cases h
+    · rename_i acc hacc
+      split at h
+      · cases h
+      · split at h
+        · cases h
+        · split at h
+          · cases h
+          · split at h
+            · cases h
+            · rename_i vc _
+              split at h
+              · rename_i a0 hf
+                cases h
+                obtain ⟨ov', hov⟩ := unlockFold_ov s.now acc vc amt (.ok acc) (by intro x hx; cases hx; exact ⟨acc.ov, rfl⟩) a hf
+                exact ⟨acc, ov', hacc, hov, rfl⟩
+              · cases h
+              · cases h
+
+/-- every record survives, except that the record at `f` may have its `OriginalVesting` rewritten -/
+def KeepsExcept (f : String) (s s' : State) : Prop :=
+  ∀ a r, s.accts.get? a = some r →
+    s'.accts.get? a = some r ∨ (f = a ∧ ∃ ov', s'.accts.get? a = some { r with ov := ov' })
+
+theorem keepsExcept_splitCoins {s : State} {src to : String} {amount : Coins} {res : Res}
+    (h : splitCoins s src to amount = .ok res) : KeepsExcept src s res.st := by
+  unfold splitCoins at h
+  split at h
+  · cases h
+  · split at h
+    · cases h
+    · split at h
+      · cases h
+      · rename_i hex
+        split at h
+        · cases h
+        · cases h
+        · rename_i s1 vacc hu
+          obtain ⟨acc, ov', hacc, hv, hs1⟩ := unlock_shape hu
+          simp only [] at h
+          split at h
+          · cases h
+          · cases h
+          · rename_i s3 hsend
+            have hfinal : ∀ a r', (newCva s1 to (sortBy (fun a b => a.1 < b.1) amount)
+                (if vacc.startS > unixSec s.now then vacc.startS else unixSec s.now) vacc.endS).accts.get? a = some r' →
+                res.st.accts.get? a = some r' := by
+              intro a r' ha
+              have := keeps_send hsend a r' ha
+              split at h
+              · cases h; exact this
+              · cases h; exact this
+            intro a r ha
+            have hne : a ≠ to := by
+              intro e; subst e; rw [ha] at hex; simp at hex
+            by_cases hao : a = src
+            · subst hao
+              right
+              refine ⟨rfl, ov', ?_⟩
+              apply hfinal
+              rw [newCva_other s1 to a _ _ _ hne, hs1, AList.get?_set_self]
+              rw [hacc] at ha; cases ha
+              rw [hv]
+            · left
+              apply hfinal
+              rw [newCva_other s1 to a _ _ _ hne, hs1, AList.get?_set_other _ _ _ _ hao]
+              exact ha
+
+/-- who may lose original vesting through the message: the signer of a split or move -/
+def splitSender : Msg → Option String
+  | .split f _ _ => some f.s
+  | .move f _ => some f.s
+  | .moveDenoms f _ _ => some f.s
+  | _ => none
+
+theorem split_case (s : State) (f to a : String) (r : Acct) (ha : s.accts.get? a = some r) (res : Res) (amt : Coins)
+    (m : Msg) (hm : splitSender m = some f) (hq : splitCoins s f to amt = .ok res) :
+    res.st.accts.get? a = some r ∨
+    (splitSender m = some a ∧ ∃ ov', res.st.accts.get? a = some { r with ov := ov' }) := by
+  rcases keepsExcept_splitCoins hq a r ha with h | ⟨h1, h2⟩
+  · exact Or.inl h
+  · exact Or.inr ⟨by rw [hm, h1], h2⟩
+
+/-- **C09 on the model**: after any delivered message every pre-existing account record is
+    unchanged — kind, account number, identity (sequence / public key), schedule, delegations —
+    except that the signer of a split or move may have its own original vesting reduced -/
+theorem existing_untouched (s : State) (m : Msg) (a : String) (r : Acct) (ha : s.accts.get? a = some r) :
     (deliver s m).1.accts.get? a = some r ∨
-    ((match m with | .split f _ _ => f.s = a | .move f _ => f.s = a | .moveDenoms f _ _ => f.s = a | _ => False) ∧
-      ∃ ov', (deliver s m).1.accts.get? a = some { r with ov := ov' })
+    (splitSender m = some a ∧ ∃ ov', (deliver s m).1.accts.get? a = some { r with ov := ov' }) := by
+  unfold deliver
+  split
+  · left; exact ha
+  · cases hh : handle s m with
+    | err => left; exact ha
+    | panic => left; exact ha
+    | ok res =>
+      simp only []
+      cases m with
+      | createPool o name amount dur vt =>
+        unfold handle at hh
+        cases amount with
+        | none => cases hh
+        | some x => left; exact keeps_createPool hh a r ha
+      | withdraw o => unfold handle at hh; left; exact keeps_withdrawAll hh a r ha
+      | send o to pool amount restart =>
+        unfold handle at hh
+        cases amount with
+        | none => cases hh
+        | some x => left; exact keeps_sendToNew hh a r ha
+      | createVA f to amount x y =>
+        unfold handle at hh
+        cases amount with
+        | none => cases hh
+        | some c =>
+          simp only [] at hh
+          split at hh
+          · cases hh
+          · left; exact keeps_createVA hh a r ha
+      | split f to amount =>
+        have fin := fun amt => split_case s f.s to.s a r ha res amt (.split f to amount) rfl
+        unfold handle at hh
+        cases amount with
+        | none => cases hh
+        | some c =>
+          simp only [] at hh
+          split at hh <;> first | cases hh | exact fin _ hh | (split at hh <;> first | cases hh | exact fin _ hh)
+      | move f to =>
+        have fin := fun amt => split_case s f.s to.s a r ha res amt (.move f to) rfl
+        simp only [handle] at hh
+        split at hh <;> first | cases hh | exact fin _ hh | (split at hh <;> first | cases hh | exact fin _ hh)
+      | moveDenoms f to denoms =>
+        have fin := fun amt => split_case s f.s to.s a r ha res amt (.moveDenoms f to denoms) rfl
+        simp only [handle] at hh
+        split at hh <;> first | cases hh | exact fin _ hh | (split at hh <;> first | cases hh | exact fin _ hh)
+
+/-- over a whole history: kind, account number, identity, schedule and delegations of every
+    pre-existing record never change; only `OriginalVesting` may, and only by the owner's splits -/
+theorem existing_untouched_history (msgs : List Msg) : ∀ (s : State) (a : String) (r : Acct), s.accts.get? a = some r →
+    ∃ ov', (msgs.foldl (fun st m => (deliver st m).1) s).accts.get? a = some { r with ov := ov' } ∧
+      ((∀ m ∈ msgs, splitSender m ≠ some a) → ov' = r.ov) := by
+  induction msgs with
+  | nil => intro s a r ha; exact ⟨r.ov, ha, fun _ => rfl⟩
+  | cons m rest ih =>
+    intro s a r ha
+    rw [List.foldl_cons]
+    rcases existing_untouched s m a r ha with h | ⟨hsp, ov1, h⟩
+    · obtain ⟨ov', h1, h2⟩ := ih _ a r h
+      exact ⟨ov', h1, fun hall => h2 (fun m' hm' => hall m' (by simp [hm']))⟩
+    · obtain ⟨ov', h1, _⟩ := ih _ a { r with ov := ov1 } h
+      refine ⟨ov', h1, ?_⟩
+      intro hall
+      exact absurd hsp (hall m (by simp))
 
 theorem nonvacuous : (newCva {} "x" [("uc4e", 5)] 1 2).accts.get? "x" = some { kind := .cva, num := 0, ov := [("uc4e", 5)], startS := 1, endS := 2 } := by
   decide
